@@ -49,6 +49,8 @@ type Hist struct {
 	whale bool
 	// the vault's parameters as governance last read them: a proposal is drafted from a query, voted on, and executed blocks later
 	vaultDraft *sstypes.Params
+	// stickyPool: the pool the transactions of the current multi-transaction block prefer (0 = none)
+	stickyPool uint64
 }
 
 func (h *Hist) user() *Acct { return h.w.Accts[h.r.Intn(len(h.w.Accts)-1)] } // last account is the feeder
@@ -120,7 +122,16 @@ func (h *Hist) pool(pred func(PoolRef) bool) PoolRef {
 	if len(c) == 0 {
 		return PoolRef{}
 	}
-	return c[h.r.Intn(len(c))]
+	pick := c[h.r.Intn(len(c))]
+	if h.stickyPool != 0 {
+		// a block with several transactions: they tend to meet on one pool (the second swap of a block, a swap after a join …)
+		for _, p := range c {
+			if p.Id == h.stickyPool && h.r.Intn(3) != 0 {
+				return p
+			}
+		}
+	}
+	return pick
 }
 
 func other(p PoolRef, d string) string {
@@ -141,11 +152,11 @@ func (h *Hist) genTx() *histTx {
 		k string
 		w int
 	}{
-		{"amm.join", 10}, {"amm.exit", 8}, {"amm.swapIn", 10}, {"amm.swapOut", 6}, {"amm.swapByDenom", 3},
+		{"amm.join", 10}, {"amm.exit", 8}, {"amm.swapIn", 10}, {"amm.swapOut", 6}, {"amm.swapByDenom", 3}, {"amm.swapBurst", 2},
 		{"ss.bond", 5}, {"ss.unbond", 5},
 		{"cm.commitClaimed", 3}, {"cm.uncommit", 3}, {"cm.vest", 3}, {"cm.cancelVest", 2}, {"cm.claimVesting", 3}, {"cm.vestLiquid", 1}, {"stake.delegate", 2}, {"stake.undelegate", 2}, {"cm.unstakeOther", 1}, {"bank.toZero", 1},
 		{"lp.open", 8}, {"lp.close", 6}, {"lp.closePositions", 4}, {"lp.claim", 1},
-		{"perp.open", 8}, {"perp.close", 6}, {"perp.closePositions", 4},
+		{"perp.open", 8}, {"perp.close", 6}, {"perp.closePositions", 4}, {"perp.swapOutPair", 1},
 		{"mc.claim", 3}, {"mc.externalIncentive", 1},
 		{"ts.spotCreate", 3}, {"ts.spotCancel", 2}, {"ts.perpCreate", 3}, {"ts.perpCancel", 2}, {"ts.execute", 4}, {"ts.spotUpdate", 1}, {"ts.perpUpdate", 1},
 		{"bank.donate", 3}, {"amm.feedExternalLiquidity", 2},
@@ -309,6 +320,73 @@ func (h *Hist) genTx() *histTx {
 			tx.req.Msgs = []sdk.Msg{&ammtypes.MsgSwapByDenom{Sender: u.Addr.String(), Amount: coin(din, a), MinAmount: coin(dout, math.ZeroInt()), DenomIn: din, DenomOut: dout, Recipient: recipient}}
 			tx.f = J{"in": []string{din, a.String()}, "out": dout, "recipient": recipient}
 		}
+	case "amm.swapBurst":
+		// one transaction with two or three swap messages on the SAME pool, each a noticeable part of a reserve (0.5 % to 10 %): they are all
+		// executed at the end of the block, one after the other, every one on the reserves the previous one left
+		p := h.pool(nil)
+		pool, ok := app.AmmKeeper.GetPool(ctx, p.Id)
+		if !ok || len(pool.PoolAssets) != 2 {
+			return nil
+		}
+		var msgs []sdk.Msg
+		nm := 2 + r.Intn(2)
+		for i := 0; i < nm; i++ {
+			io := r.Intn(2)
+			ain, aout := pool.PoolAssets[io], pool.PoolAssets[1-io]
+			permille := int64([]int{5, 10, 30, 100}[r.Intn(4)])
+			if r.Intn(2) == 0 {
+				a := ain.Token.Amount.MulRaw(permille).QuoRaw(1000)
+				if a.IsPositive() {
+					msgs = append(msgs, &ammtypes.MsgSwapExactAmountIn{Sender: u.Addr.String(), Routes: []ammtypes.SwapAmountInRoute{{PoolId: p.Id, TokenOutDenom: aout.Token.Denom}},
+						TokenIn: sdk.NewCoin(ain.Token.Denom, a), TokenOutMinAmount: math.OneInt(), Recipient: u.Addr.String()})
+				}
+			} else {
+				a := aout.Token.Amount.MulRaw(permille).QuoRaw(1000)
+				if a.IsPositive() {
+					msgs = append(msgs, &ammtypes.MsgSwapExactAmountOut{Sender: u.Addr.String(), Routes: []ammtypes.SwapAmountOutRoute{{PoolId: p.Id, TokenInDenom: ain.Token.Denom}},
+						TokenOut: sdk.NewCoin(aout.Token.Denom, a), TokenInMaxAmount: math.NewInt(1_000_000_000_000_000), Recipient: u.Addr.String()})
+				}
+			}
+		}
+		if len(msgs) < 2 {
+			return nil
+		}
+		tx.req.Msgs = msgs
+		tx.f = J{"pool": p.Id, "msgs": len(msgs)}
+	case "perp.swapOutPair":
+		// two exact-out requests in ONE block against a perpetual pool, each for a good part of what the pool holds beyond the custody of its
+		// positions: each alone is acceptable when it is sent; executed one after the other at the end of the block, the second may be
+		// refused by the perpetual hook (the pool must keep holding the custody) — after the first has been applied
+		p := h.pool(func(q PoolRef) bool { return q.Perp })
+		if p.Id == 0 {
+			return nil
+		}
+		pool, ok1 := app.AmmKeeper.GetPool(ctx, p.Id)
+		pp, ok2 := app.PerpetualKeeper.GetPool(ctx, p.Id)
+		if !ok1 || !ok2 {
+			return nil
+		}
+		d := "uatom"
+		bal, err := pool.GetAmmPoolBalance(d)
+		if err != nil {
+			return nil
+		}
+		_, custody, _, _ := pp.GetPerpetualPoolBalances(d)
+		free := bal.Sub(custody)
+		if !free.IsPositive() {
+			return nil
+		}
+		a := free.MulRaw(int64([]int{45, 55, 70, 95}[r.Intn(4)])).QuoRaw(100)
+		if !a.IsPositive() {
+			return nil
+		}
+		mk := func() sdk.Msg {
+			return &ammtypes.MsgSwapExactAmountOut{Sender: u.Addr.String(), Routes: []ammtypes.SwapAmountOutRoute{{PoolId: p.Id, TokenInDenom: h.std.USDC}},
+				TokenOut: coin(d, a), TokenInMaxAmount: math.NewInt(1_000_000_000_000_000), Recipient: u.Addr.String()}
+		}
+		tx.kind = "amm.swapOut"
+		tx.req.Msgs = []sdk.Msg{mk(), mk()}
+		tx.f = J{"pool": p.Id, "out": []string{d, a.String()}, "hops": 1, "recipient": u.Addr.String(), "pair": true}
 	case "amm.feedExternalLiquidity":
 		// the price feeder reports the depth of external markets for an oracle pool's assets (changes the pool's external liquidity ratios only)
 		p := h.pool(func(q PoolRef) bool { return q.Oracle })
@@ -1062,7 +1140,7 @@ func runHist(t *testing.T, seed int64, n int, out *Out) {
 		}
 		pools := []J{}
 		for _, p := range std.Pools {
-			pools = append(pools, J{"id": p.Id, "addr": p.Addr, "oracle": p.Oracle, "perp": p.Perp, "denoms": p.Denoms, "shareDenom": p.ShareDen, "treasury": p.Treasury})
+			pools = append(pools, J{"id": p.Id, "addr": p.Addr, "oracle": p.Oracle, "perp": p.Perp, "denoms": p.Denoms, "weights": p.Weights, "shareDenom": p.ShareDen, "treasury": p.Treasury})
 		}
 		out.Line(J{"t": "hist.begin", "id": hi, "seed": hseed, "world": wv, "names": w.Names, "pools": pools, "obs": w.Observe()})
 		stats := map[string]int{}
@@ -1106,11 +1184,15 @@ func runHist(t *testing.T, seed int64, n int, out *Out) {
 			if h.r.Intn(12) == 0 {
 				k = 0
 			}
+			if k >= 2 {
+				h.stickyPool = h.std.Pools[h.r.Intn(len(h.std.Pools))].Id
+			}
 			for i := 0; i < k; i++ {
 				if tx := h.genTx(); tx != nil {
 					txs = append(txs, tx)
 				}
 			}
+			h.stickyPool = 0
 			if h.r.Intn(25) == 0 && outage == 0 {
 				// a sharp price move and, IN THE SAME BLOCK (after the begin-blocker sweep has run), one third-party message
 				// naming every open position in every list: several positions of one pool close inside one message
